@@ -198,6 +198,32 @@ theorem reconstruct_panics_without_shard0_pinned [DecidableEq H] (cfg : Cfg)
   exact construct_created_panics_pinned cfg f rs C P _ _ msg k p hl hin hok hsz S hS hcount hpinned h0
     localIdx hloc
 
+/-- The concrete replay of the known finding, on the model: `(k, p) = (1, 1)` (three peers), message
+"hi", only unit 1 present. Pinned code: panic. Repaired code: the message. -/
+theorem reconstruct_without_shard0_witness (sg : SigScheme HTerm) (C P : Bytes) (nonce : Nat) :
+    (∃ units, createUnits Cfg.pinned termFns repCode11 sg C P nonce [104, 105] 1 1 = .ok units ∧
+      construct Cfg.pinned termFns repCode11 (maskUnits [false, true] units) 1 1 1 = .panic) ∧
+    (∃ units sh pr, createUnits Cfg.repaired termFns repCode11 sg C P nonce [104, 105] 1 1 = .ok units ∧
+      construct Cfg.repaired termFns repCode11 (maskUnits [false, true] units) 1 1 1 =
+        .ok ([104, 105], sh, pr)) := by
+  have hin : PadInput [104, 105] 1 := by unfold PadInput; decide
+  have hok : rsNewOk 1 1 = true := by decide
+  have hsz := goSized_of_small repCode11 [104, 105] 1 1 repCode11_laws hin hok (by decide)
+  refine ⟨⟨_, createUnits_eq Cfg.pinned termFns repCode11 sg C P nonce _ 1 1 hin.1 hok, ?_⟩,
+    ⟨_, (encOf repCode11 [104, 105] 1 1).getD 1 [],
+      (treeOf Cfg.repaired termFns repCode11 [104, 105] 1 1).2.getD 1 [],
+      createUnits_eq Cfg.repaired termFns repCode11 sg C P nonce _ 1 1 hin.1 hok, ?_⟩⟩
+  · exact construct_created_panics_pinned Cfg.pinned termFns repCode11 C P _ _ _ 1 1 repCode11_laws hin hok
+      hsz [false, true] rfl (by decide) rfl rfl 1 (by decide)
+  · exact construct_created Cfg.repaired termFns repCode11 C P _ _ _ 1 1 repCode11_laws hin hok hsz
+      [false, true] rfl (by decide) (Or.inl rfl) 1 (by decide)
+
+/-- The size side condition `GoSized` of the theorems above holds for every message shorter than
+2^50 bytes in every configuration the GF(2^8) codec accepts. -/
+theorem go_sized_of_small (rs : RS) (msg : Bytes) (k p : Nat) (hl : RSLaws rs k p) (hin : PadInput msg k)
+    (hok : rsNewOk k p = true) (hsmall : msg.length < 2 ^ 50) : GoSized rs msg k p :=
+  goSized_of_small rs msg k p hl hin hok hsmall
+
 /-! ## 4. Nothing else can be delivered; the receiver does not fail -/
 
 /-- `construct_sound` — "cannot cause a different message to be delivered": for ARBITRARY units
@@ -307,6 +333,17 @@ theorem bad_sender_rejected [DecidableEq H] (cfg : Cfg) (f : HashFns H) (sg : Si
     obtain ⟨e, he⟩ := origin_rejects_other_sender s sender u.publisher u.index expected hp h1 h2
     rw [he] at horig; cases horig
 
+/-- Who the designated broadcasters are: for a publisher in a duplicate-free committee of
+`k+p+1` peers every shard index `< k+p` has exactly one designated broadcaster, a member other than
+the publisher, and no peer is designated for two indices — so `bad_sender_rejected` leaves a
+Byzantine peer at most its own index. (The harness checks on the real `NewScheduler` that its peer
+list is duplicate-free and that `ShardIndexForPublisher` is the inverse map.) -/
+theorem designated_broadcaster_unique (s : Sched) (hnd : s.peers.Nodup)
+    (hlen : s.peers.length = s.total + 1) (pub : Bytes) (hp : pub ∈ s.peers) :
+    (∀ i, i < s.total → ∃ q, s.peerForShard pub i = .ok q ∧ q ∈ s.peers ∧ q ≠ pub) ∧
+    (∀ i j q, s.peerForShard pub i = .ok q → s.peerForShard pub j = .ok q → i = j) :=
+  peerForShard_spec s hnd hlen pub hp
+
 /-- `bad_unit_rejected` (signature / committee / nonce / root / publisher), over ANY sequence of
 deliveries through the processor's routing (one validator per message key, signature cached after
 the first verification), starting with no validators: every accepted unit carries a signature that
@@ -392,6 +429,7 @@ theorem created_unit_signed_payload (cfg : Cfg) (f : HashFns H) (rs : RS) (sg : 
 
 example : Ideal termFns := ideal_termFns
 example : RSLaws trivialCode 1 0 := trivialCode_laws
+example : RSLaws repCode11 1 1 := repCode11_laws
 example : PadInput [1, 2, 3] 3 := by unfold PadInput; decide
 example : rsNewOk 3 6 = true := by decide
 example : RoutesOk (⟨fun _ => [1], fun _ _ _ => true⟩ : SigScheme HTerm) [] := routesOk_nil _
